@@ -121,13 +121,13 @@ impl Check for BarrierAndStatus {
     }
     fn rule(&self) -> String {
         if self.mt {
-            return "the machine sets of part C13 with times scaled to real time (slow initialisers 0..60 ms, shutdown requests 1..180 ms after the barrier, timeouts 1..800 ms, no Forward+ARP machines) on the tokio multi_thread runtime with 2/4/8 workers; oracle: (1) as in C13 by the logical clock (an atomic counter read by the harness protocols immediately before they wait on the barrier and by the frame hook / recorder on every frame and demux): no frame or demux before the last harness protocol reached the barrier, none at all if one never does, and none before the slowest initialiser's sleep has elapsed; (2) the returned status was requested by somebody (or TimedOut with a timeout, Exited without any request), and no other request was made more than 250 ms (the timeout: 400 ms) of measured time before the winning one; (3) with a timeout the call returns within timeout + 1 s + 1 s of scheduling slack; a run that must end returns at all (5 s slack). non-trivial: as in C13. distinct: hash of decoded configuration".into();
+            return "the machine sets of part C13 with times scaled to real time (slow initialisers 0..60 ms, shutdown requests 1..180 ms after the barrier, timeouts 1..800 ms, no Forward+ARP machines) on the tokio multi_thread runtime with 2/4/8 workers; oracle: (1) as in C13 by the logical clock (an atomic counter read by the harness protocols immediately before they wait on the barrier and by the frame hook / recorder on every frame and demux): no frame or demux before the last harness protocol reached the barrier, none at all if one never does, and none before the slowest initialiser's sleep has elapsed; (2) the returned status was requested by somebody (or TimedOut with a timeout, Exited without any request and without anybody keeping a shutdown handle) - which of several wins is left to the virtual-time part, the operating system's scheduling decides it here; (3) with a timeout the call returns within timeout + 1 s + 4 s of scheduling slack; a run that must end returns at all. non-trivial: as in C13. distinct: hash of decoded configuration".into();
         }
         "generated: 0..6 machines on one network, each with a role built from the repository's own protocols and applications (sender = Pci+Ipv4+Udp(+Arp)+SendMessage transmitting right after the barrier; receiver = recording application (+Capture that never completes); idle PingPong pair member, Forward(+Arp), DnsServer+SocketAPI, Tcp only, bare) plus 0..3 harness applications per machine: SlowInit(d) sleeping d before the barrier, Shutter(t, status) requesting a shutdown t after the barrier, NeverReturns, NeverReachesBarrier (at most one per case); timeout none or 1 ms..1 h, shutdown times distinct from the timeout, pairwise distinct or (1/4 of the cases) several in the same instant, in 1/10 of the cases 18 requests with pairwise different statuses in one instant; oracle: (1) no frame is on any network and no application receives anything before every harness application has reached the barrier (logical clock shared by stamps and the frame hook) nor before the longest SlowInit has elapsed, and nothing at all if somebody never reaches it; (2) the returned status is that of the earliest shutdown request made before the timeout (within one instant: the request issued first, by logical stamps taken immediately before each request), else TimedOut (with a timeout) or Exited (without; only generated with machines that keep no shutdown handle or with a shutter); (3) with a timeout the call returns no later than timeout + 1 s of virtual time, and exactly at the winning shutter's time when there is one. non-trivial: >= 2 machines with a slow initialiser and a sender that transmits right after the barrier, or >= 2 competing shutdowns, or a machine that never finishes / never reaches the barrier. distinct: hash of decoded configuration".into()
     }
     fn assumptions(&self) -> Vec<String> {
         if self.mt {
-            return vec!["the multi-thread schedule is sampled, not owned: each case is one schedule chosen by the operating system; real-time margins (250 ms between competing requests, 400 ms against the timeout, 1 s on the return bound) make the oracle insensitive to scheduling jitter".into()];
+            return vec!["the multi-thread schedule is sampled, not owned: each case is one schedule chosen by the operating system; no order between competing requests and the timeout is demanded, and the return bound has 4 s of slack, so that scheduling jitter under load cannot raise an alarm".into()];
         }
         vec![
             "part C13 runs on the current-thread runtime under virtual time; part C13.multithread samples the multi-thread runtime".into(),
@@ -354,42 +354,23 @@ impl Check for BarrierAndStatus {
         }
         if mt {
             ensure!(status != ExitStatus::Status(u32::MAX), "return_time", "never_returned", "the run did not return within {} (timeout {:?}, {} shutdown requests made)", if timeout_ms.is_some() { "timeout + 6 s" } else { "10 s" }, timeout_ms, st.requests.len());
-            // scheduling slack: between two requests stamped by the same clock, and (larger) against the timeout task
-            // whose sleep starts whenever the runtime first polls it
-            let margin = Duration::from_millis(250);
-            let to_margin = Duration::from_millis(400);
+            // Which of several requests (or the timeout) wins is decided by the operating system's scheduling here: under
+            // load the timeout task or a requesting thread can be delayed by hundreds of milliseconds, so no order is
+            // demanded (the virtual-time part decides that); the status must be one that somebody asked for.
             let to = timeout_ms.map(Duration::from_millis);
             match &status {
-                ExitStatus::TimedOut => {
-                    let to = to.ok_or(()).map_err(|_| Failure::new("exit_status", "wrong_status", "TimedOut returned by a run without a timeout".to_string()))?;
-                    if let Some(r) = st.requests.iter().find(|r| r.2 + to_margin < to) {
-                        fail!("exit_status", "wrong_status", "returned TimedOut (timeout {:?}) although a shutdown with status {:?} was requested at {:?} ({} workers)", to, r.1, r.2, workers);
-                    }
-                }
+                ExitStatus::TimedOut => ensure!(to.is_some(), "exit_status", "wrong_status", "TimedOut returned by a run without a timeout ({} workers)", workers),
                 other => {
-                    let mine: Option<Option<u32>> = match other {
-                        ExitStatus::Status(n) => Some(Some(*n)),
-                        _ => Some(None),
+                    let mine: Option<u32> = match other {
+                        ExitStatus::Status(n) => Some(*n),
+                        _ => None,
                     };
-                    let req = st.requests.iter().filter(|r| Some(r.1) == mine).min_by_key(|r| r.0);
-                    match req {
-                        None => {
-                            // Exited without any request: every shutdown handle was dropped
-                            ensure!(*other == ExitStatus::Exited && st.requests.is_empty() && !keeps_handle, "exit_status", "wrong_status", "returned {:?} which nobody requested (requests {:?}, {} workers)", other, st.requests, workers);
-                        }
-                        Some(w) => {
-                            if let Some(r) = st.requests.iter().find(|r| r.2 + margin < w.2) {
-                                fail!("exit_status", "wrong_status", "returned {:?} requested at {:?} although {:?} was requested at {:?} ({} workers)", other, w.2, r.1, r.2, workers);
-                            }
-                            if let Some(to) = to {
-                                ensure!(to + to_margin >= w.2, "exit_status", "wrong_status", "returned {:?} requested at {:?}, after the timeout of {:?} ({} workers)", other, w.2, to, workers);
-                            }
-                        }
-                    }
+                    let requested = st.requests.iter().any(|r| r.1 == mine);
+                    ensure!(requested || (*other == ExitStatus::Exited && st.requests.is_empty() && !keeps_handle), "exit_status", "wrong_status", "returned {:?} which nobody requested (requests {:?}, {} workers)", other, st.requests, workers);
                 }
             }
             if let Some(to) = to {
-                ensure!(elapsed <= to + Duration::from_secs(2), "return_time", "later_than_timeout_plus_1s", "returned after {:?} with a timeout of {:?} ({} workers)", elapsed, to, workers);
+                ensure!(elapsed <= to + Duration::from_secs(5), "return_time", "later_than_timeout_plus_1s", "returned after {:?} with a timeout of {:?} ({} workers; 4 s of scheduling slack)", elapsed, to, workers);
             }
             let slow_machines = behaviours.iter().filter(|b| b.iter().any(|x| matches!(x, Behaviour::SlowInit(d) if *d > 0))).count();
             ctx.nontrivial = (slow_machines >= 2 && senders >= 1 && !frames.is_empty()) || shutters.len() >= 2 || never_reaches || behaviours.iter().flatten().any(|b| *b == Behaviour::NeverReturns);
